@@ -45,6 +45,7 @@
 #include "scpi/error.h"
 #include "scpi/constants.h"
 #include "scpi/utils.h"
+#include "scpi/verif.h"
 
 /**
  * Write data to SCPI output
@@ -55,6 +56,7 @@
  */
 static size_t writeData(scpi_t * context, const char * data, size_t len) {
     if ((len > 0) && (data != NULL)) {
+        SCPI_VERIF_EV(context, SCPI_VE_WRITE, data, len, 0);
         return context->interface->write(context, data, len);
     } else {
         return 0;
@@ -68,6 +70,7 @@ static size_t writeData(scpi_t * context, const char * data, size_t len) {
  */
 static int flushData(scpi_t * context) {
     if (context && context->interface && context->interface->flush) {
+        SCPI_VERIF_EV(context, SCPI_VE_FLUSH, NULL, 0, 0);
         return context->interface->flush(context);
     } else {
         return SCPI_RES_OK;
@@ -202,6 +205,7 @@ scpi_bool_t SCPI_Parse(scpi_t * context, char * data, int len) {
         return FALSE;
     }
 
+    SCPI_VERIF_EV(context, SCPI_VE_PARSE_BEGIN, data, len, 0);
     state = &context->parser_state;
     context->output_count = 0;
     context->first_output = TRUE;
@@ -210,6 +214,7 @@ scpi_bool_t SCPI_Parse(scpi_t * context, char * data, int len) {
         r = scpiParser_detectProgramMessageUnit(state, data, len);
 
         if (state->programHeader.type == SCPI_TOKEN_INVALID) {
+            SCPI_VERIF_EV(context, SCPI_VE_UNIT_INVALID, data, r, 0);
             SCPI_ErrorPush(context, SCPI_ERROR_INVALID_CHARACTER);
             result = FALSE;
         } else if (state->programHeader.len > 0) {
@@ -225,12 +230,15 @@ scpi_bool_t SCPI_Parse(scpi_t * context, char * data, int len) {
                 context->param_list.cmd_raw.position = 0;
                 context->param_list.cmd_raw.length = state->programHeader.len;
 
+                SCPI_VERIF_EV(context, SCPI_VE_UNIT_BEGIN, state->programHeader.ptr, state->programHeader.len, context->param_list.cmd - context->cmdlist);
                 result &= processCommand(context);
+                SCPI_VERIF_EV(context, SCPI_VE_UNIT_END, NULL, result, 0);
                 cmd_prev = state->programHeader;
             } else {
                 /* place undefined header with error */
                 /* calculate length of errorenous header and trim \r\n */
                 size_t r2 = r;
+                SCPI_VERIF_EV(context, SCPI_VE_UNIT_BEGIN, state->programHeader.ptr, state->programHeader.len, -1);
                 while (r2 > 0 && (data[r2 - 1] == '\r' || data[r2 - 1] == '\n')) r2--;
                 SCPI_ErrorPushEx(context, SCPI_ERROR_UNDEFINED_HEADER, data, r2);
                 result = FALSE;
@@ -249,6 +257,7 @@ scpi_bool_t SCPI_Parse(scpi_t * context, char * data, int len) {
     /* conditionally write new line */
     writeNewLine(context);
 
+    SCPI_VERIF_EV(context, SCPI_VE_PARSE_END, NULL, result, 0);
     return result;
 }
 
@@ -318,6 +327,7 @@ scpi_bool_t SCPI_Input(scpi_t * context, const char * data, int len) {
     size_t totcmdlen = 0;
     int cmdlen = 0;
 
+    SCPI_VERIF_EV(context, SCPI_VE_INPUT_BEGIN, data, len, 0);
     if (len == 0) {
         context->buffer.data[context->buffer.position] = 0;
         result = SCPI_Parse(context, context->buffer.data, context->buffer.position);
@@ -331,11 +341,13 @@ scpi_bool_t SCPI_Input(scpi_t * context, const char * data, int len) {
             context->buffer.position = 0;
             context->buffer.data[context->buffer.position] = 0;
             SCPI_ErrorPush(context, SCPI_ERROR_INPUT_BUFFER_OVERRUN);
+            SCPI_VERIF_EV(context, SCPI_VE_INPUT_OVERRUN, NULL, len, 0);
             return FALSE;
         }
         memcpy(&context->buffer.data[context->buffer.position], data, len);
         context->buffer.position += len;
         context->buffer.data[context->buffer.position] = 0;
+        SCPI_VERIF_EV(context, SCPI_VE_INPUT_APPENDED, NULL, context->buffer.position, 0);
 
 
         while (1) {
@@ -355,6 +367,7 @@ scpi_bool_t SCPI_Input(scpi_t * context, const char * data, int len) {
         }
     }
 
+    SCPI_VERIF_EV(context, SCPI_VE_INPUT_END, NULL, result, context->buffer.position);
     return result;
 }
 
@@ -714,6 +727,7 @@ scpi_bool_t SCPI_Parameter(scpi_t * context, scpi_parameter_t * parameter, scpi_
         } else {
             parameter->type = SCPI_TOKEN_PROGRAM_MNEMONIC; /* TODO: select something different */
         }
+        SCPI_VERIF_EV(context, SCPI_VE_PARAM, parameter->ptr, parameter->type, ((long)parameter->len << 2) | (mandatory ? 2 : 0) | 0);
         return FALSE;
     }
     if (context->input_count != 0) {
@@ -721,6 +735,7 @@ scpi_bool_t SCPI_Parameter(scpi_t * context, scpi_parameter_t * parameter, scpi_
         if (parameter->type != SCPI_TOKEN_COMMA) {
             invalidateToken(parameter, NULL);
             SCPI_ErrorPush(context, SCPI_ERROR_INVALID_SEPARATOR);
+            SCPI_VERIF_EV(context, SCPI_VE_PARAM, parameter->ptr, parameter->type, ((long)parameter->len << 2) | (mandatory ? 2 : 0) | 0);
             return FALSE;
         }
     }
@@ -740,10 +755,12 @@ scpi_bool_t SCPI_Parameter(scpi_t * context, scpi_parameter_t * parameter, scpi_
         case SCPI_TOKEN_SINGLE_QUOTE_PROGRAM_DATA:
         case SCPI_TOKEN_DOUBLE_QUOTE_PROGRAM_DATA:
         case SCPI_TOKEN_PROGRAM_EXPRESSION:
+            SCPI_VERIF_EV(context, SCPI_VE_PARAM, parameter->ptr, parameter->type, ((long)parameter->len << 2) | (mandatory ? 2 : 0) | 1);
             return TRUE;
         default:
             invalidateToken(parameter, NULL);
             SCPI_ErrorPush(context, SCPI_ERROR_INVALID_STRING_DATA);
+            SCPI_VERIF_EV(context, SCPI_VE_PARAM, parameter->ptr, parameter->type, ((long)parameter->len << 2) | (mandatory ? 2 : 0) | 0);
             return FALSE;
     }
 }
